@@ -160,7 +160,7 @@ Lemma nested_capture_witness :
   let h := [BeginCapture; Print false [mkSeg (lit "a") None false]; BeginCapture;
             Print false [mkSeg (lit "b") None false]; EndCapture;
             Print false [mkSeg (lit "c") None false]; EndCapture] in
-  map (@ret) (snd (run all_truthy toy_esc norule nolink true true (mkCfg 80 false 0 false) st0 h))
+  map (@ret) (snd (run all_truthy toy_esc norule nolink true true (mkCfg 80 false 0 false false) st0 h))
   = [None; None; None; None; Some (lit "ab"); None; Some (lit "c")].
 Proof. reflexivity. Qed.
 
